@@ -11,9 +11,9 @@ PID = "C04"
 
 SESSIONS = {
     # name: (argv dict, quick bound, thorough bound)
+    "lp4-192x128-n1": ({"w": 192, "h": 128, "n": 1, "logical_processors": 4, "recon_enabled": 1}, 1, 1),
     "lp1-64x64-n2-hl0": ({"w": 64, "h": 64, "n": 2, "hierarchical_levels": 0, "recon_enabled": 1}, 1, 1),
     "lp1-64x64-n3-hl1": ({"w": 64, "h": 64, "n": 3, "hierarchical_levels": 1, "recon_enabled": 1}, 1, 1),
-    "lp4-192x128-n1": ({"w": 192, "h": 128, "n": 1, "logical_processors": 4, "recon_enabled": 1}, 1, 1),
     "lp2-128x64-n3-hl1": ({"w": 128, "h": 64, "n": 3, "hierarchical_levels": 1, "logical_processors": 2, "recon_enabled": 1}, 0, 1),
     "lp4-192x128-n2-tiles": ({"w": 192, "h": 128, "n": 2, "logical_processors": 4, "tile_rows": 1, "recon_enabled": 1}, 0, 1),
     "lp1-64x64-n1-hl0-d2": ({"w": 64, "h": 64, "n": 1, "hierarchical_levels": 0, "recon_enabled": 1}, -1, 2),
@@ -28,7 +28,9 @@ def observation(res):
 
 def explore_session(ck, name, args, bound, exe, deadline, variant_env=None):
     argv = ["%s=%s" % kv for kv in args.items()]
-    E = schedlib.Exploration(exe, argv, env=variant_env, timeout=300)
+    env = dict(variant_env or {})
+    env.setdefault("VS_UNLOCK_YIELD", "1")  # mutex release is a scheduling point: exposes check-after-unlock races
+    E = schedlib.Exploration(exe, argv, env=env, timeout=300)
     state = {"ref": None, "outcomes": {}}
 
     def on(res):
@@ -92,7 +94,7 @@ def run(tier):
            "explanation": "stateless exploration of the real encoder under the serialising scheduler: every schedule with total delay <= bound "
                           "is executed; 'states' counts distinct decision traces, 'transitions' scheduling decisions executed; every "
                           "schedule is an execution of the implementation"}
-    return ck.finish(cov, ["scheduling points: SVT mutex lock, semaphore wait/post, cond var set/wait, thread create/join; code between them is atomic",
+    return ck.finish(cov, ["scheduling points: SVT mutex lock and release, semaphore wait/post, cond var set/wait, thread create/join; code between them is atomic",
                            "delay-bounded (Emmi/Qadeer/Rakamaric) exploration: bound 1 quick, 2 on the smallest session in the thorough tier",
                            "data races inside regions without synchronisation calls are not explored (TSan side check is separate)"])
 
@@ -103,9 +105,9 @@ def replay(path):
     exe = schedlib.build_encdrv("rel")
     argv = ["%s=%s" % kv for kv in d["args"].items()]
     devs = [tuple(int(x) for x in t.split(":")) for t in d["delays"].split(",") if t]
-    a = schedlib.run_schedule(exe, argv, [])
-    b = schedlib.run_schedule(exe, argv, devs)
-    b2 = schedlib.run_schedule(exe, argv, devs)
+    a = schedlib.run_schedule(exe, argv, [], env={"VS_UNLOCK_YIELD": "1"})
+    b = schedlib.run_schedule(exe, argv, devs, env={"VS_UNLOCK_YIELD": "1"})
+    b2 = schedlib.run_schedule(exe, argv, devs, env={"VS_UNLOCK_YIELD": "1"})
     print("canonical:", observation(a), "rc", a["rc"])
     print("schedule [%s]:" % d["delays"], observation(b), "rc", b["rc"], json.dumps(b.get("out"))[:300] if b["rc"] else "")
     print("deterministic replay:", observation(b) == observation(b2) and b["rc"] == b2["rc"])
